@@ -12,13 +12,15 @@ import (
 //verif:witness accepted
 func H_C01_LeaseSet2() {
 	shapes := ls2Shapes()
-	s := shapes[nd.IntRange(0, len(shapes)-1)]
-	in, total := s.build()
+	i := nd.IntRange(0, len(shapes)-1)
+	expShape("accepted", i)
+	in, total := shapes[i].build()
 	ls, rem, err := lease_set2.ReadLeaseSet2(in)
 	if err != nil {
 		return
 	}
 	nd.Cover("accepted")
+	covShape("accepted", i)
 	out, berr := ls.Bytes()
 	nd.Assert(berr == nil, "ls2/bytes-ok")
 	if berr != nil {
